@@ -1,7 +1,183 @@
 //! C12 — send and receive directions are independent; split, clone and unsplit lose nothing; threads.
 use crate::objs;
+use crate::faultio::{Fail, FragReader, FragWriter, FAIL_KINDS};
 use crate::util::*;
 use wow_srp::{tbc_header, vanilla_header, wrath_header};
+
+/// Write / Read wrappers, available on the combined object and on the halves alike (C12 compares the two, whatever the
+/// sink or source does).
+pub trait IoEnc {
+    fn write_hdr(&mut self, w: &mut FragWriter, sel: u64, a: u32, b: u32) -> std::io::Result<()>;
+}
+pub trait IoDec {
+    fn read_hdr(&mut self, r: &mut FragReader, sel: u64) -> std::io::Result<(u32, u32)>;
+}
+macro_rules! io_add {
+    ($($t:ty),*) => {$(
+        impl IoEnc for $t {
+            fn write_hdr(&mut self, w: &mut FragWriter, sel: u64, a: u32, b: u32) -> std::io::Result<()> {
+                if sel & 1 == 1 {
+                    self.write_encrypted_server_header(w, a as u16, b as u16)
+                } else {
+                    self.write_encrypted_client_header(w, a as u16, b)
+                }
+            }
+        }
+    )*};
+}
+macro_rules! io_add_dec {
+    ($($t:ty),*) => {$(
+        impl IoDec for $t {
+            fn read_hdr(&mut self, r: &mut FragReader, sel: u64) -> std::io::Result<(u32, u32)> {
+                if sel & 1 == 1 {
+                    self.read_and_decrypt_server_header(r).map(|h| (h.size as u32, h.opcode as u32))
+                } else {
+                    self.read_and_decrypt_client_header(r).map(|h| (h.size as u32, h.opcode))
+                }
+            }
+        }
+    )*};
+}
+io_add!(vanilla_header::HeaderCrypto, vanilla_header::EncrypterHalf, tbc_header::HeaderCrypto, tbc_header::EncrypterHalf);
+io_add_dec!(vanilla_header::HeaderCrypto, vanilla_header::DecrypterHalf, tbc_header::HeaderCrypto, tbc_header::DecrypterHalf);
+macro_rules! io_wrath {
+    ($($t:ty),*; $($u:ty),*; $($v:ty),*; $($x:ty),*) => {
+        $(impl IoEnc for $t {
+            fn write_hdr(&mut self, w: &mut FragWriter, _sel: u64, a: u32, b: u32) -> std::io::Result<()> {
+                self.write_encrypted_client_header(w, a as u16, b)
+            }
+        })*
+        $(impl IoEnc for $u {
+            fn write_hdr(&mut self, w: &mut FragWriter, sel: u64, a: u32, b: u32) -> std::io::Result<()> {
+                self.write_encrypted_server_header(w, if sel & 1 == 1 { a & 0x7FFF } else { a & 0x7F_FFFF }, b as u16)
+            }
+        })*
+        $(impl IoDec for $v {
+            fn read_hdr(&mut self, r: &mut FragReader, _sel: u64) -> std::io::Result<(u32, u32)> {
+                self.read_and_decrypt_server_header(r).map(|h| (h.size, h.opcode as u32))
+            }
+        })*
+        $(impl IoDec for $x {
+            fn read_hdr(&mut self, r: &mut FragReader, _sel: u64) -> std::io::Result<(u32, u32)> {
+                self.read_and_decrypt_client_header(r).map(|h| (h.size as u32, h.opcode))
+            }
+        })*
+    };
+}
+io_wrath!(wrath_header::ClientCrypto, wrath_header::ClientEncrypterHalf; wrath_header::ServerCrypto, wrath_header::ServerEncrypterHalf;
+          wrath_header::ClientCrypto, wrath_header::ClientDecrypterHalf; wrath_header::ServerCrypto, wrath_header::ServerDecrypterHalf);
+
+/// A combined object and a pair of separate halves (split off a copy at the start) receive the same calls, among them
+/// Write / Read wrapper calls whose sink or source takes short writes, delivers fragments, is interrupted or *fails*
+/// part-way. Per direction both must return the same results and stay in step with each other afterwards, whatever the
+/// wrapper does with its state on a failure (that is C11's business; here only combined == separate counts).
+pub fn io_equivalence<W>(rep: &mut Rep, k: [u8; 40], seed: u64, steps: usize)
+where
+    W: Whole + IoEnc + IoDec,
+    W::E: IoEnc,
+    W::D: IoDec,
+{
+    let replay = format!("ioeq {} {} {} {}", W::NAME, hex(&k), seed, steps);
+    let mut rng = Rng::new(seed, 0x10e9);
+    let made = guard(|| {
+        let (w, _, _) = W::make(k);
+        let (e, d) = w.clone().split();
+        (w, e, d)
+    });
+    let (mut whole, mut e, mut d) = match made {
+        Ok(x) => x,
+        Err(err) => {
+            rep.violation(&format!("c12:{}:panic:construct", W::NAME), err, replay);
+            return;
+        }
+    };
+    let mut trace: Vec<String> = Vec::new();
+    for step in 0..steps {
+        let op = rng.below(10);
+        let fail = match rng.below(3) {
+            0 => Fail::None,
+            _ => FAIL_KINDS[rng.below(FAIL_KINDS.len() as u64) as usize],
+        };
+        let (cuts, intr, acc, sel) = (rng.below(64) as u32, rng.chance(1, 3), rng.below(7) as usize, rng.next());
+        rep.ev(1);
+        let verdict: Result<Option<String>, String> = guard(|| match op {
+            0..=2 => {
+                let len = [0usize, 1, 4, 5, 6, 40][rng.below(6) as usize] + rng.below(3) as usize;
+                let p = rng.bytes(len);
+                let (mut a, mut b) = (p.clone(), p);
+                whole.enc(&mut a);
+                e.enc(&mut b);
+                trace.push(format!("enc{}", len));
+                if a != b {
+                    Some("send".to_string())
+                } else {
+                    None
+                }
+            }
+            3..=4 => {
+                let len = [0usize, 1, 4, 5, 6, 40][rng.below(6) as usize] + rng.below(3) as usize;
+                let p = rng.bytes(len);
+                let (mut a, mut b) = (p.clone(), p);
+                whole.dec(&mut a);
+                d.dec(&mut b);
+                trace.push(format!("dec{}", len));
+                if a != b {
+                    Some("receive".to_string())
+                } else {
+                    None
+                }
+            }
+            5..=7 => {
+                let (x, y) = (rng.next() as u32, rng.next() as u32);
+                let mut w1 = FragWriter::new(acc, cuts, intr, fail);
+                let mut w2 = FragWriter::new(acc, cuts, intr, fail);
+                let r1 = whole.write_hdr(&mut w1, sel, x, y);
+                let r2 = e.write_hdr(&mut w2, sel, x, y);
+                trace.push(format!("write(acc{},{:?})->{}", acc, fail, if r1.is_ok() { "ok" } else { "err" }));
+                if r1.is_ok() != r2.is_ok() || w1.sink != w2.sink {
+                    Some("send".to_string())
+                } else {
+                    None
+                }
+            }
+            _ => {
+                let data = rng.bytes(8);
+                let mut r1 = FragReader::new(&data, acc, cuts, intr, fail);
+                let mut r2 = FragReader::new(&data, acc, cuts, intr, fail);
+                let a = whole.read_hdr(&mut r1, sel);
+                let b = d.read_hdr(&mut r2, sel);
+                trace.push(format!("read(avail{},{:?})->{}", acc, fail, if a.is_ok() { "ok" } else { "err" }));
+                if a.as_ref().ok() != b.as_ref().ok() || a.is_ok() != b.is_ok() || r1.pos != r2.pos {
+                    Some("receive".to_string())
+                } else {
+                    None
+                }
+            }
+        });
+        match verdict {
+            Err(err) => {
+                rep.violation(&format!("c12:{}:panic:io_equivalence", W::NAME), err, replay);
+                return;
+            }
+            Ok(Some(dir)) => {
+                rep.violation(
+                    &format!("c12:{}:combined_differs_from_separate_halves:{}", W::NAME, dir),
+                    format!(
+                        "step {}: the combined object and a separate half given the same calls (incl. wrapper calls with short / failing sinks and sources) disagree in the {} direction; last calls {:?}",
+                        step, dir, &trace[trace.len().saturating_sub(6)..]
+                    ),
+                    replay,
+                );
+                return;
+            }
+            Ok(None) => {}
+        }
+        if op >= 5 {
+            rep.count(if matches!(fail, Fail::None) { "wrapper_calls_on_combined_and_half_ok_sink" } else { "wrapper_calls_on_combined_and_half_failing_sink" }, 1);
+        }
+    }
+    rep.count("io_equivalence_histories", 1);
+}
 
 pub trait EncH: Clone + Send + 'static {
     fn enc(&mut self, d: &mut [u8]);
@@ -821,6 +997,17 @@ yields compared with the models. distinct = op-kind 3-grams per expansion + unsp
                 _ => history::<wrath_header::ServerCrypto>(&mut rep, k, hs, max_ops, max_chunk),
             }
         }
+        for i in 0..(if tier == "miri" { 1 } else { per / 2 + 1 }) {
+            let k: [u8; 40] = rng.arr();
+            let hs = rng.next();
+            let st = if tier == "miri" { 10 } else { 60 };
+            match if tier == "miri" { seed as usize % 4 } else { (sh + i) % 4 } {
+                0 => io_equivalence::<vanilla_header::HeaderCrypto>(&mut rep, k, hs, st),
+                1 => io_equivalence::<tbc_header::HeaderCrypto>(&mut rep, k, hs, st),
+                2 => io_equivalence::<wrath_header::ClientCrypto>(&mut rep, k, hs, st),
+                _ => io_equivalence::<wrath_header::ServerCrypto>(&mut rep, k, hs, st),
+            }
+        }
         for _ in 0..(if tier == "miri" { (seed % 3 == 0) as usize } else { per / 4 + 1 }) {
             let k: [u8; 40] = rng.arr();
             let hs = rng.next();
@@ -913,6 +1100,18 @@ pub fn replay(args: &[String]) -> Rep {
                 "wrath_client" => threaded::<wrath_header::ClientCrypto>(&mut rep, k, s, msgs, true),
                 _ => threaded::<wrath_header::ServerCrypto>(&mut rep, k, s, msgs, true),
             }
+        }
+    } else if args.len() >= 5 && args[0] == "ioeq" {
+        let kb = unhex(&args[2]);
+        let mut k = [0u8; 40];
+        k.copy_from_slice(&kb[..40]);
+        let s: u64 = args[3].parse().unwrap_or(0);
+        let st: usize = args[4].parse().unwrap_or(60);
+        match args[1].as_str() {
+            "vanilla" => io_equivalence::<vanilla_header::HeaderCrypto>(&mut rep, k, s, st),
+            "tbc" => io_equivalence::<tbc_header::HeaderCrypto>(&mut rep, k, s, st),
+            "wrath_client" => io_equivalence::<wrath_header::ClientCrypto>(&mut rep, k, s, st),
+            _ => io_equivalence::<wrath_header::ServerCrypto>(&mut rep, k, s, st),
         }
     } else if args.len() >= 4 && args[0] == "twostep" {
         let kb = unhex(&args[1]);
